@@ -6,7 +6,7 @@ SID=$1; CID=$2; TIER=${3:-quick}
 WT=/tmp/vmut-$SID-$$
 git -C /repo worktree add -q --detach "$WT" HEAD || exit 2
 trap 'git -C /repo worktree remove --force "$WT" >/dev/null 2>&1; rm -rf "$WT" /tmp/vz-mutant-out-$$' EXIT
-git -C "$WT" apply /verif/seeded/$SID/patch.diff || { echo "patch does not apply"; exit 2; }
+P=/verif/seeded/$SID/patch.diff; [ -f /verif/seeded/$SID/patch_rebased.diff ] && P=/verif/seeded/$SID/patch_rebased.diff; git -C "$WT" apply $P || { echo "patch does not apply"; exit 2; }
 cd /verif
 VERIF_REPO=$WT VZ_OUT=/tmp/vz-mutant-out-$$ ./check $CID --tier $TIER
 echo "exit=$?"
